@@ -21,7 +21,7 @@ RULE = ("plain, continuous and grid environments; a pool of agent objects with d
         "(remove, strict lookup) and oob(axis, side, near|far) generated against the current state; non-trivial = >=3 "
         "residents at some point, >=1 removal from the middle followed by iteration and >=2 different rejection kinds "
         "fired; distinct = sequence of (op, outcome, population)"
-        "; also: continuous extents in (0,1), fractional out-of-bounds coordinates in grids, worlds that are not model.environment, an environment without any model, callers that edit returned listings / use the random helpers, model lifecycle ops, agents that are environments themselves (own components, inhabitants, population changing while resident), stretches of the history issued from inside a running timestep, adds / removals spelled addAgent / removeAgent, agents constructed for another model")
+        "; also: continuous extents in (0,1), fractional out-of-bounds coordinates in grids, worlds that are not model.environment, an environment without any model, callers that edit returned listings / use the random helpers, model lifecycle ops, agents that are environments themselves (own components, inhabitants, population changing while resident), stretches of the history issued from inside a running timestep, adds / removals spelled addAgent / removeAgent, agents constructed for another model, agents bringing equal-valued position components into a plain environment")
 COMPONENTS = {"real": ["ECAgent.Core.Environment add_agent / remove_agent / get_agent / get_agents / __len__ / __iter__",
                        "SpaceWorld / DiscreteWorld / GridWorld / LineWorld add_agent / remove_agent",
                        "SystemManager component pools (observed)"],
@@ -29,7 +29,8 @@ COMPONENTS = {"real": ["ECAgent.Core.Environment add_agent / remove_agent / get_
 PROBES = ["dup_same_object", "dup_other_object", "unknown_remove", "unknown_strict_lookup", "oob_x_lo", "oob_x_hi",
           "oob_y_lo", "oob_y_hi", "oob_z_lo", "oob_z_hi", "oob_far", "reject_on_empty_environment", "remove_from_middle",
           "readd_after_remove", "plain_env", "spatial_env", "model_lifecycle_op", "caller_scrambles_listing", "oob_fractional_in_grid", "environment_without_model",
-          "agent_is_an_environment", "nested_population_changed_while_resident", "ops_from_inside_a_timestep", "deprecated_camelcase_spelling", "agent_constructed_for_another_model"]
+          "agent_is_an_environment", "nested_population_changed_while_resident", "ops_from_inside_a_timestep", "deprecated_camelcase_spelling", "agent_constructed_for_another_model",
+          "agents_with_equal_position_components_in_a_plain_environment"]
 TECHNIQUE = "deterministic simulation: every rejection injected at states reached by seeded add/remove histories, full observable snapshot compared before/after, insertion-ordered map reference"
 LEVEL_TEXT = ("Seeded search over add/remove histories with colliding ids; after every operation length, iteration, listing and "
               "lookup must agree with an insertion-ordered reference; each injected rejection must raise the documented class "
@@ -93,6 +94,10 @@ def generate(rng, tier):
         for p_ in pool:          # agents that were constructed for ANOTHER model (a template / builder model) and live here
             if rng.random() < 0.4:
                 p_["foreign"] = True
+    if world["kind"] == "plain" and not orphan and rng.random() < 0.2:
+        for p_ in pool:          # in a plain environment a position component is a component like any other: agents may bring
+            if rng.random() < 0.5:   # one along (all at the same coordinates - components are told apart by identity)
+                p_["ownpos"] = True
     if orphan:
         pass
     elif rng.random() < 0.3:
@@ -153,6 +158,9 @@ def execute(sc, ctx):
             ctx.probe("agent_constructed_for_another_model")
         for c in spec["comps"]:
             a.add_component(KT[c % 3](a, home))
+        if spec.get("ownpos") and sc["world"]["kind"] == "plain" and not sc["world"].get("orphan"):
+            a.add_component(PositionComponent(a, home, 1.0, 2.0, 0.0))
+            ctx.probe("agents_with_equal_position_components_in_a_plain_environment")
         if isinstance(a, Environment):
             for j in range(int(nest.get("inner", 0))):
                 inner_add(a)
@@ -204,7 +212,7 @@ def execute(sc, ctx):
         ctx.check(pools() == sorted(exp_pools.items()), "component-listings",
                   lambda: f"{where}: listings {pools()} expected {sorted(exp_pools.items())}")
         for a in objs:
-            if a.id not in residents or objs[residents[a.id]] is not a:
+            if spatial and (a.id not in residents or objs[residents[a.id]] is not a):
                 ctx.check(PositionComponent not in a, "stray-position", f"{where}: non-resident {a.id} carries a position")
 
     def rejected(what, excs, fn, *args, **kw):
